@@ -1,8 +1,8 @@
 (* C12 — queued RDM requests complete exactly once, in order, one at a time.
    Only theorem statements; proofs are in ProofsT/F/A/B/C/D/R/E.v and Proofs.v.
 
-   A history is a list of top-level operations (Model.op): Submit cb (cb = the operations the
-   request's completion callback performs, recursively), Disc full cb, Pause, Resume, Deliver reply
+   A history is a list of top-level operations (Model.op): Submit null cb (cb = the operations the
+   request's completion callback performs, recursively; null = the caller passes a NULL callback), Disc full cb, Pause, Resume, Deliver reply
    (the underlying controller answers later), DeliverDisc; together with the script of the mock
    underlying controller (per SendRDMRequest call: answer synchronously with a given reply, or later;
    per discovery run: finish synchronously or later), the queue limit and the controller class.
@@ -13,7 +13,7 @@
    destructor is `reachable` too. *)
 From OlaBase Require Import Bytes.
 From Coq Require Import Sorted.
-From C12 Require Import Gen Model ProofsT ProofsA ProofsB ProofsC ProofsD ProofsR ProofsE Proofs.
+From C12 Require Import Gen Model ProofsT ProofsA ProofsB ProofsC ProofsD ProofsR ProofsE ProofsP Proofs.
 Local Open Scope N_scope.
 
 (* the constants the model and the statements below use are those of the headers *)
@@ -84,7 +84,8 @@ Theorem c12_once_in_order :
                              (forall l, hd_error (rev (c_parts c)) = Some l -> rs_mc rs = rs_mc l)) /\
                             ((2 <= length (c_parts c))%nat ->
                              len (rs_data rs) <= MAX_OVERFLOW_SIZE /\ rs_type rs = RDM_ACK /\
-                             (rs_cc rs = GET_COMMAND_RESPONSE \/ rs_cc rs = SET_COMMAND_RESPONSE))
+                             (rs_cc rs = GET_COMMAND_RESPONSE \/ rs_cc rs = SET_COMMAND_RESPONSE)) /\
+                (forall p, c_parts c = [p] -> rs = p)
                | None => True
                end) (g_done f)) /\
   (forall max discov ms ds s ag,
@@ -108,7 +109,8 @@ Print Assumptions c12_once_in_order.
    e.g. the empty last ACK real responders send - the mock tags only non-empty data); it carries the
    source UID and command class common to all parts, the PID of the first part and the message
    count of the last part; a response built from two or more parts is an RDM_ACK (never
-   ACK_OVERFLOW) GET or SET response of at most MAX_OVERFLOW_SIZE (4096) bytes.  While a sequence
+   ACK_OVERFLOW) GET or SET response of at most MAX_OVERFLOW_SIZE (4096) bytes; a response built
+   from a single answer is that answer, unchanged.  While a sequence
    is in progress the accumulator belongs to the request at the head of the queue and is the
    concatenation of the parts received so far; when no sequence is in progress nothing is
    accumulated.  (That a sequence yields exactly one completion - the combined response or a single
@@ -124,7 +126,8 @@ Theorem c12_overflow : forall max discov ms ds s ag,
                           (forall l, hd_error (rev (c_parts c)) = Some l -> rs_mc rs = rs_mc l)) /\
                          ((2 <= length (c_parts c))%nat ->
                           len (rs_data rs) <= MAX_OVERFLOW_SIZE /\ rs_type rs = RDM_ACK /\
-                          (rs_cc rs = GET_COMMAND_RESPONSE \/ rs_cc rs = SET_COMMAND_RESPONSE))
+                          (rs_cc rs = GET_COMMAND_RESPONSE \/ rs_cc rs = SET_COMMAND_RESPONSE)) /\
+                (forall p, c_parts c = [p] -> rs = p)
             | None => True
             end) (g_done s) /\
   (h_destroying s = false ->
@@ -137,7 +140,8 @@ Theorem c12_overflow : forall max discov ms ds s ag,
                  (forall l, hd_error (rev (g_parts s)) = Some l -> rs_mc c = rs_mc l)) /\
                 ((2 <= length (g_parts s))%nat ->
                  len (rs_data c) <= MAX_OVERFLOW_SIZE /\ rs_type c = RDM_ACK /\
-                 (rs_cc c = GET_COMMAND_RESPONSE \/ rs_cc c = SET_COMMAND_RESPONSE))
+                 (rs_cc c = GET_COMMAND_RESPONSE \/ rs_cc c = SET_COMMAND_RESPONSE)) /\
+                (forall p, g_parts s = [p] -> c = p)
   | None => g_parts s = [] /\ g_from s = []
   end).
 Proof.
@@ -178,6 +182,91 @@ Theorem c12_paused : forall max discov ms ds s ag,
 Proof. exact reach_paused. Qed.
 Print Assumptions c12_paused.
 
+(* CombineResponses exactly: two parts combine iff their data together is at most MAX_OVERFLOW_SIZE
+   (4096 itself is accepted, 4097 is not - see c12_combine_limit), their source UIDs are equal and
+   both are GET responses or both are SET responses; the result is then an RDM_ACK with the first
+   part's source, class and PID, the second part's message count and the concatenated data. *)
+Theorem c12_combine : forall a b c,
+  combine a b = Some c <->
+  (len (rs_data a) + len (rs_data b) <= MAX_OVERFLOW_SIZE /\ rs_src a = rs_src b /\
+   ((rs_cc a = GET_COMMAND_RESPONSE /\ rs_cc b = GET_COMMAND_RESPONSE) \/
+    (rs_cc a = SET_COMMAND_RESPONSE /\ rs_cc b = SET_COMMAND_RESPONSE)) /\
+   c = mkResp RDM_ACK (rs_src a) (rs_cc a) (rs_mc b) (rs_data a ++ rs_data b) (rs_pid a)).
+Proof. exact combine_spec. Qed.
+Print Assumptions c12_combine.
+
+Example c12_combine_limit :
+  let part n := mkResp 3 1 33 0 (repeat 7 n) 100 in
+  (exists c, combine (part 2048%nat) (part 2048%nat) = Some c /\ len (rs_data c) = 4096) /\
+  combine (part 2048%nat) (part 2049%nat) = None.
+Proof. split; [eexists; split; vm_compute; reflexivity|vm_compute; reflexivity]. Qed.
+
+(* Nothing of an ACK_OVERFLOW session leaks into another request: whenever a partial response is
+   held, it belongs to the request at the head of the queue, that request has not completed yet, and
+   everything accumulated was answered to dispatches of that very request; whenever no partial response
+   is held (in particular right after a session ended in a completion, an error or a combine failure)
+   the accumulator ghosts are empty (second clause of c12_overflow). *)
+Theorem c12_no_leak : forall max discov ms ds s ag c,
+  reachable max discov ms ds s ag -> h_destroying s = false -> s_resp s = Some c ->
+  exists i cb rest, s_queue s = (i, cb) :: rest /\ count_id i (g_done s) = O /\
+    rs_data c = concat (map rs_data (g_parts s)) /\
+    Forall (fun p => rs_data p = [] \/ exists d, rs_data p = i :: d) (g_parts s) /\
+    Forall (fun x => x = i) (g_from s).
+Proof.
+  intros max discov ms ds s ag c Hr Hnd Hc.
+  destruct (reach_no_leak _ _ _ _ _ _ _ Hr Hnd Hc) as (i & cb & rest & Hq & Hn & (Hd & Ht & _) & Hf).
+  exists i, cb, rest. auto.
+Qed.
+Print Assumptions c12_no_leak.
+
+(* Progress: at every instant of every history (outside destruction), if the controller is active,
+   no request is in flight and no discovery is running, but a request or a discovery request is
+   waiting, then a call of TakeNextAction() is still pending on the call stack (the tail of
+   HandleRDMResponse or of DiscoveryComplete).  Hence after every top-level operation has returned
+   (empty call stack) an active, idle controller has nothing waiting: every queued request has been
+   sent and every discovery request - in particular all those queued while a discovery was running -
+   has been handed to a run (which by c12_discovery_coalesce takes all of them at once). *)
+Theorem c12_progress :
+  (forall max discov ms ds s ag,
+     reachable max discov ms ds s ag -> h_destroying s = false ->
+     s_active s = true -> s_pending s = false -> s_rdisc s = [] ->
+     (s_pdisc s <> [] \/ s_queue s <> []) ->
+     Exists (fun f => match f with FTakeNext | FDiscDone => True | _ => False end) ag) /\
+  (forall max discov ms ds s,
+     reachable max discov ms ds s [] -> h_destroying s = false ->
+     s_active s = true -> s_pending s = false -> s_rdisc s = [] ->
+     s_pdisc s = [] /\ s_queue s = []).
+Proof. split; [exact reach_progress|exact reach_quiescent]. Qed.
+Print Assumptions c12_progress.
+
+(* Nothing is sent while paused, step by step: a single step taken while the user-level paused flag
+   is set (any step but the Resume() call itself) adds no SendRDMRequest / Run*Discovery call to the
+   log of calls reaching the underlying controller, and its lists of outstanding calls can only lose
+   their oldest entry (an answer being delivered). *)
+Theorem c12_paused_step : forall max discov ms ds s f ag s' ag',
+  reachable max discov ms ds s (f :: ag) -> h_paused s = true -> f <> FOp Resume ->
+  step s f ag = (s', ag') ->
+  length (filter (fun e => match e with TSend _ | TDisc _ => true | _ => false end) (g_trace s')) =
+  length (filter (fun e => match e with TSend _ | TDisc _ => true | _ => false end) (g_trace s)) /\
+  (m_out s' = m_out s \/ exists i, m_out s = i :: m_out s') /\
+  (m_dout s' = m_dout s \/ exists x, m_dout s = x :: m_dout s').
+Proof. exact reach_paused_step. Qed.
+Print Assumptions c12_paused_step.
+
+(* The verdict values the model driver prints next to the implementation's independently computed
+   ones are constants: after every history followed by destruction there is no repeated completion, the
+   queued requests completed in submission order, every delivered response is the concatenation of its
+   own tagged parts, no request is lost, at most one call was ever outstanding, none was made while
+   paused, the queue-full bookkeeping never disagreed and the fatal branch was not taken.  (Agreement
+   on the SPEC keys dup, ooo, bad, lost, conc, ps, rj therefore means the implementation's values are
+   0 resp. <= 1.) *)
+Theorem c12_verdicts : forall max discov ms ds h f,
+  run_history max discov ms ds h = Some f ->
+  dups (g_done f) = O /\ sorted_lt (accepted_ids (g_done f)) = true /\ bad_data (g_done f) = O /\
+  lost f = O /\ g_conc f <= 1 /\ g_psends f = 0 /\ g_rj f = 0 /\ g_fatal f = false.
+Proof. exact history_verdicts. Qed.
+Print Assumptions c12_verdicts.
+
 (* Non-vacuity: a history with a re-entrant submission, an ACK_OVERFLOW chain whose first part is
    answered synchronously inside a completion callback, pause/resume around a request in flight,
    a full discovery with a callback and an incremental one with a NULL callback coalesced into one full
@@ -185,14 +274,15 @@ Print Assumptions c12_paused.
    in order (1 from an ACK_OVERFLOW part and an EMPTY final ACK: delivered as RDM_ACK with the data of
    part 1, the PID of part 1 and the message count of the last part), 5 is rejected, 3 and 4 are failed by the
    destructor, whose run of 3's callback submits 6 (and calls Resume), whose callback submits 7 -
-   both failed by the destructor too; one call outstanding at most, none sent while paused. *)
+   both failed by the destructor too (request 5, the rejected one, was submitted with a NULL callback:
+   its ignored script would have paused); one call outstanding at most, none sent while paused. *)
 Example c12_example :
   let ack := mkReply 0 (Some (mkResp 0 1 33 0 [7] 100)) 1 in
   let ovf := mkReply 0 (Some (mkResp 3 1 33 4 [5] 101)) 1 in
   let last := mkReply 0 (Some (mkResp 0 1 33 9 [] 102)) 1 in   (* empty last frame of the sequence *)
   match run_history 2 true [Later; Sync ovf; Later; Later] [false]
-          [Submit [Submit []]; Pause; Resume; Deliver ack; Deliver last; Submit []; Submit [];
-           Disc true false []; Disc false true []; Deliver ack; DeliverDisc; Submit [Submit [Submit []]; Resume]; Submit []] with
+          [Submit false [Submit false []]; Pause; Resume; Deliver ack; Deliver last; Submit false []; Submit false [];
+           Disc true false []; Disc false true []; Deliver ack; DeliverDisc; Submit false [Submit false [Submit false []]; Resume]; Submit true [Pause]] with
   | Some f => map (fun c => (c_id c, c_kind c,
                              match r_resp (c_reply c) with
                              | Some r => (rs_type r, rs_mc r, rs_pid r, rs_data r) | None => (9, 0, 0, []) end))
@@ -202,7 +292,7 @@ Example c12_example :
                (6, 2, (9, 0, 0, [])); (7, 2, (9, 0, 0, []))]
               /\ g_conc f = 1 /\ g_psends f = 0 /\ g_rj f = 0 /\ dv_of f = O /\
               map (fun e => (fst (fst e), snd (fst e), map snd (snd e))) (g_runs f) = [(0, true, [0; 1])] /\
-              g_ddone f = [(0, 0); (1, 0)] /\ s_nulls f = [1]
+              g_ddone f = [(0, 0); (1, 0)] /\ s_nulls f = [1] /\ s_qnulls f = [5]
   | None => False
   end.
 Proof. vm_compute. repeat split. Qed.
